@@ -4,6 +4,7 @@ import (
 	"encoding/json"
 	"flag"
 	"fmt"
+	"github.com/Fantom-foundation/lachesis-base/inter/idx"
 	"io/ioutil"
 	"math/rand"
 	"os"
@@ -24,6 +25,7 @@ func CmdSearch(args []string, seed int64) int {
 	maxEv := fs.Int("maxev", 60, "event budget per DAG")
 	sealCascade := fs.Bool("sealcascade", false, "two epochs, the application seals inside a cascade; the first epoch is dumped with its seal frame")
 	allowCrit := fs.Bool("allowcrit", false, "keep DAGs at which the generator instance reported a critical error (search against a modified library)")
+	script := fs.String("script", "", "JSON file {\"w\": [...], \"events\": [{name, cr, sp, ps}]}: a hand-written DAG instead of random generation")
 	out := fs.String("out", "found.ndjson", "output")
 	fs.Parse(args)
 	p, ok := profiles[*prof]
@@ -42,6 +44,22 @@ func CmdSearch(args []string, seed int64) int {
 		g := p.gen(r, k)
 		g.Epochs = 1
 		g.SealFrames = nil
+		if *script != "" {
+			var sc struct {
+				W      []int      `json:"w"`
+				Events []ScriptEv `json:"events"`
+			}
+			b, err := ioutil.ReadFile(*script)
+			if err == nil {
+				err = json.Unmarshal(b, &sc)
+			}
+			if err != nil {
+				fmt.Fprintln(os.Stderr, err)
+				return 2
+			}
+			g = GenCfg{Weights: sc.W, Epochs: 1, EpochEvents: len(sc.Events), MaxParents: 2, Script: sc.Events}
+			*maxEv = len(sc.Events)
+		}
 		if *sealCascade {
 			g.Epochs = 2
 			g.SealAtCascade = true
@@ -52,6 +70,12 @@ func CmdSearch(args []string, seed int64) int {
 		}
 		rec := NewRecorder(ioutil.Discard)
 		sc := Generate(r, g, rec)
+		if len(sc.Epochs) > 0 && lateForkMarkDag(sc.Epochs[0].Events) {
+			rec.Stats["late_fork_mark"]++
+			if rec.Stats["blocks_with_cheaters"] > 0 {
+				rec.Stats["late_fork_mark_and_cheater_blocks"]++
+			}
+		}
 		if rec.Stats[*want] == 0 || len(sc.Epochs) == 0 || (sc.Epochs[0].Crit && !*allowCrit) {
 			continue
 		}
@@ -115,4 +139,70 @@ func CmdSearch(args []string, seed int64) int {
 	}
 	fmt.Printf("{\"tried\":%d,\"found\":%d}\n", *n, len(res))
 	return 0
+}
+
+// lateForkMarkDag computes, from the DAG in its generation order alone, whether some event lists a parent that sees two
+// index branches of a validator as one chain (no fork visible) before a parent that sees that validator's fork.
+func lateForkMarkDag(evs []*Ev) bool {
+	type key struct {
+		cr idx.ValidatorID
+		sq int
+	}
+	branch := map[int]int{} // event -> branch
+	tip := map[int]int{}    // branch -> last event
+	first := map[idx.ValidatorID]bool{}
+	anc := map[int]map[int]bool{} // event -> ancestors-or-self
+	byID := map[int]*Ev{}
+	nb := 0
+	for _, e := range evs {
+		byID[e.ID] = e
+		if e.SP == 0 {
+			nb++
+			branch[e.ID] = nb
+			first[e.Cr] = true
+		} else if tip[branch[e.SP]] == e.SP {
+			branch[e.ID] = branch[e.SP]
+		} else {
+			nb++
+			branch[e.ID] = nb
+		}
+		tip[branch[e.ID]] = e.ID
+		a := map[int]bool{e.ID: true}
+		for _, p := range e.Ps {
+			for x := range anc[p] {
+				a[x] = true
+			}
+		}
+		anc[e.ID] = a
+		// per validator: what each parent sees
+		plainSeen := map[idx.ValidatorID]bool{}
+		for _, p := range e.Ps {
+			seqs := map[key]int{}
+			brs := map[idx.ValidatorID]map[int]bool{}
+			forkOf := map[idx.ValidatorID]bool{}
+			for x := range anc[p] {
+				ex := byID[x]
+				k := key{ex.Cr, ex.Sq}
+				seqs[k]++
+				if seqs[k] > 1 {
+					forkOf[ex.Cr] = true
+				}
+				if brs[ex.Cr] == nil {
+					brs[ex.Cr] = map[int]bool{}
+				}
+				brs[ex.Cr][branch[x]] = true
+			}
+			for v, f := range forkOf {
+				if f && plainSeen[v] {
+					return true
+				}
+			}
+			for v, b := range brs {
+				if !forkOf[v] && len(b) >= 2 {
+					plainSeen[v] = true
+				}
+			}
+		}
+	}
+	return false
 }
